@@ -905,8 +905,8 @@ def run(ctx: Ctx) -> None:
         if missing and "corpus" in STREAMS and not (ctx.violations or ctx.disagreements):
             raise MachineryFault(f"the directed corpus no longer exercises: {missing}")
         # -- random streams, interleaved so that a time cap cuts all of them alike
-        plan = (["generic"] * ctx.n(300, 3000) + ["boundary"] * ctx.n(300, 3000) + ["rewrite"] * ctx.n(150, 1500)
-                + ["shared"] * ctx.n(220, 2200))
+        plan = (["generic"] * ctx.n(300, 2000) + ["boundary"] * ctx.n(300, 2000) + ["rewrite"] * ctx.n(150, 1000)
+                + ["shared"] * ctx.n(220, 1500))
         plan = [x for x in plan if x in STREAMS]
         rng.shuffle(plan)
         for i, stream in enumerate(plan):
@@ -931,7 +931,7 @@ def run(ctx: Ctx) -> None:
     streams()
     if STREAMS != ["corpus", "generic", "boundary", "rewrite", "shared", "probe"]:
         ctx.notes.append(f"C10_STREAMS={','.join(STREAMS)}: not the full check")
-    for i in range(ctx.n(360, 3600) if "probe" in STREAMS else 0):
+    for i in range(ctx.n(360, 2400) if "probe" in STREAMS else 0):
         if ctx.out_of_time():
             break
         if len(ctx.violations) >= 8:
